@@ -15,13 +15,15 @@ def search(ctx):
 
 def run(ctx):
     # 1. binding table regenerated from basic.rs / string.rs / string_buf.rs
-    ctx.extract(["bindings"])
+    # ... and the view bodies of string.rs as Lean DEFINITIONS (Generated/C17Views.lean): the
+    # theorems gen_chars_* / gen_lines_* of Props/C17 are stated over them
+    ctx.extract(["bindings", "c17views"])
     # the driver does not depend on the theorems: build it first so the
     # correspondence run has its model even when a proof is broken
     ok, out = ctx.lake_build(["rotov-driver"])
     ctx.obligation("build:rotov-driver", ok, out[-1500:])
     # 2. theorems against the regenerated table and the view models
-    ctx.prove(PROPS, extra_modules=["RotoV.Lemmas.Strings", "RotoV.Model.Strings", "RotoV.Model.BuiltinSpec"])
+    ctx.prove(PROPS, extra_modules=["RotoV.Lemmas.Strings", "RotoV.Lemmas.StringsGen", "RotoV.Model.Strings", "RotoV.Model.BuiltinSpec"])
     # 3. correspondence: every built-in through a script vs std/inetnum oracle and Lean model
     if ctx.build_harness("c17"):
         ctx.harness("c17", ["run", ctx.seed, ctx.tier], timeout=3000)
@@ -30,7 +32,10 @@ def run(ctx):
         "std vocabulary of Model/Strings.lean (is_char_boundary, str::get, char_indices, match_indices, lines) is std's documented meaning; "
         "tied to real std by the correspondence run (Lean spec answers are compared with std on every case)",
         "usize is 64 bits (u64 -> usize conversions in basic.rs never fail)",
-        "hand transcription of string.rs view bodies into Lean is tied by correspondence only (plus the generated `std` expression text for one-expression bodies)",
+        "the hand transcription of string.rs view bodies (Model/Strings.lean, what the Lean driver runs) is tied by correspondence, by the generated "
+        "`std` expression text for one-expression bodies, and — for StringChars::get/slice and StringLines::slice — by theorems equating it with the "
+        "definitions GENERATED from string.rs (gen_chars_slice_is_model, gen_lines_slice_is_model); the statement translator (C10's, reused) and its "
+        "named std vocabulary (Model/Builtins.lean: boundary iterator, offsets after newlines, skip/take loop reading) are trusted",
     ]
     return ctx.finish(
         level="proof",
